@@ -173,7 +173,7 @@ def _run_reset_for_co2(crop, conc):
     return ps.Seasonal_Crop_List[0].fCO2
 
 
-@harness("co2_factor", modules=["aquacrop.timestep.reset_initial_conditions"], props=["C17", "C16"], configs=_co2_configs, timeout_ms=10000)
+@harness("co2_factor", modules=["aquacrop.timestep.reset_initial_conditions"], props=["C17", "C16"], configs=_co2_configs, timeout_ms=20000)
 def h_co2(ctx, cfg):
     crop = real_crop(cfg["crop"].replace("GDD", "") if cfg["crop"].replace("GDD", "") in crop_params and crop_params[cfg["crop"].replace("GDD", "")]["CalendarType"] == 1 else cfg["crop"])
     crop.CalendarType = 1       # the CO2 block does not depend on the calendar type; avoids the thermal-calendar code below it
